@@ -108,6 +108,8 @@ Input(e) ==
             IF Ok(e) THEN DeleteOffset(e.p, kmap[e.who]) ELSE Quiet
       [] e.ev = "poll_next" ->
             IF Ok(e) THEN PollNext(e.p, kmap[e.who], e.r, e.auto) ELSE Quiet
+      [] e.ev = "poll_auto" ->
+            IF Ok(e) THEN PollNext(e.p, kmap[e.who], e.r, TRUE) ELSE Quiet
       [] e.ev = "del_group" -> IF Ok(e) THEN DeleteGroup(kmap[e.who]) ELSE Quiet
       [] e.ev = "make_group" -> IF Ok(e) THEN MakeGroup(kmap[e.who]) ELSE Quiet
 
@@ -134,6 +136,10 @@ InputLabels(e) ==
             IF ~Ok(e) THEN (IF kmap[e.who] \in gkeys /\ kmap[e.who] \notin groups THEN {} ELSE Refused(e))
             ELSE IF e.r \notin NextSet(log[e.p], LoSet(lo[e.p], cacheLo[e.p]), stored[e.p][kmap[e.who]], e.n)
                  THEN {<<"C07.next_result", e.p, e.who>>} ELSE {}
+      [] e.ev = "poll_auto" ->
+            IF ~Ok(e) THEN (IF kmap[e.who] \in gkeys /\ kmap[e.who] \notin groups THEN {} ELSE Refused(e))
+            ELSE IF e.r \notin Slices(log[e.p], LoSet(lo[e.p], cacheLo[e.p]), e.o, e.n)
+                 THEN {<<"C02.poll", e.p, e.o, e.n, Len(e.r)>>} ELSE {}
       [] e.ev = "append" ->
             (* C18: a send carrying client-chosen ids must leave exactly the specification's log (first occurrences kept *)
             (* with de-duplication on, everything kept with it off), whatever else the sweep finds                      *)
